@@ -36,15 +36,16 @@ type Exec struct {
 	h       *HarnessRun
 	globals map[*ssa.Global]*Object
 
-	prefix    []Dec
-	pos       int
-	decs      []Dec
-	pc        []*Term
-	model     Model // satisfies pc, or nil
-	facts     *factStore
-	clock     *Term
-	sleeps    int
-	usedFresh bool
+	prefix       []Dec
+	pos          int
+	decs         []Dec
+	pc           []*Term
+	model        Model // satisfies pc, or nil
+	facts        *factStore
+	clock        *Term
+	summaryCalls map[string][][2]*Term
+	sleeps       int
+	usedFresh    bool
 
 	inputs    []*Term
 	inputSeen map[string]int
